@@ -1165,12 +1165,14 @@ fn run_filter(o: &O, pred: &str, method: &str, universe: u32) -> Result<(), Fail
     // and the other way round: inserting the surviving pieces one by one
     let pieces: Map = build_alt(&exp, "desc_singles", universe).unwrap();
     if got != pieces || pieces != got {
-        return Err(property_failure(
-            &api,
-            &exp,
-            "result == map built by inserting the surviving pieces (PartialEq)",
-            read_id_map(&got, true).to_json(true),
-        ));
+        let mut expected = expected_json(&exp, true, !exp.client_is_empty(1));
+        expected.push_field("property", J::str("result == map built by inserting the surviving pieces (PartialEq)"));
+        return Err(Failure {
+            why: "equality/encoding mismatch".to_string(),
+            expected,
+            actual: read_id_map(&got, true).to_json(true),
+            api,
+        });
     }
     // filter borrows the map
     check_result(&map, o, 0, &format!("{} (map afterwards)", api))
